@@ -53,10 +53,12 @@ def Caller.allowed : Caller → Bool
   | .ret | .retGen | .pedCallWithArgs | .pedTypeCheck | .pedTVMismatch | .bodyExc _ => true
   | .bindTypeError | .escape _ => false
 
-/-- the property as stated, without the two guards below (false: region `bodyMentionsStaticmethod`) -/
+/-- the property as stated, without the guards of `wrapper_adds_nothing` below (`hinit`: `__init__` finds the receiver; `hc`: `clazz` does not
+    fail).  False: regions `bodyMentionsStaticmethod` (a module-level function decorated `@staticmethod @pedantic`) and - until the repair
+    `receiverMayBeKeyword` - `receiverByKeywordIndexError` (`K.m(self=k, a=1)`). -/
 def WrapperAddsNothing_full : Prop :=
   ∀ (env : Env) (orc : Nat → Val → Raw) (f : Fn) (args : List Val) (kw : List (NameId × Val)) (body : BodyOut),
-    (∀ k v, orc k v ≠ .raisedTV) → (f.firstIsSelf && args.isEmpty) = false →
+    (∀ k v, orc k v ≠ .raisedTV) →
     f.binds (fwdPosOf f args).length (kw.map (·.1)) = true → (runCall env orc f args kw body).caller.allowed = true
 
 /-- **C08 (wrapper level).** For every call that Python itself accepts - whatever the annotations (supported or not: the
@@ -65,7 +67,7 @@ def WrapperAddsNothing_full : Prop :=
     (its complement is the region `bodyMentionsStaticmethod`: a plain function whose text contains the static needle). -/
 theorem wrapper_adds_nothing (env : Env) (orc : Nat → Val → Raw) (horc : ∀ k v, orc k v ≠ .raisedTV) (f : Fn) (args : List Val)
     (kw : List (NameId × Val)) (body : BodyOut)
-    (hinit : (f.firstIsSelf && args.isEmpty) = false)                       -- Python itself supplies self
+    (hinit : f.initFails args = false)                       -- Python itself supplies self
     (hc : f.clazzFails args = false)
     (hbinds : f.binds (fwdPosOf f args).length (kw.map (·.1)) = true) :     -- Python accepts the invocation
     (runCall env orc f args kw body).caller.allowed = true := by
@@ -91,9 +93,9 @@ theorem wrapper_adds_nothing (env : Env) (orc : Nat → Val → Raw) (horc : ∀
   · unfold runCall; simp [hinit, hkw, Caller.allowed]
   · have hkw' : (f.shouldHaveKwargs && !(f.argsWithoutSelf args).isEmpty) = false := by simpa using hkw
     cases hm : f.mode with
-    | requireKwargs => rw [runCall_requireKwargs _ _ _ _ _ _ hm hinit hkw']; exact hinv
+    | requireKwargs => rw [runCall_requireKwargs' _ _ _ _ _ _ hm hinit hkw']; exact hinv
     | pedantic =>
-      rw [runCall_pedantic _ _ _ _ _ _ hm hinit hkw']
+      rw [runCall_pedantic' _ _ _ _ _ _ hm hinit hkw']
       cases hca : checkArguments env orc f args kw with
       | none => exact hinv
       | some c => rw [checkArguments_some_tc env orc horc f args kw hc c hca]; rfl
@@ -109,7 +111,7 @@ theorem wrapper_adds_nothing_bound_method (env : Env) (orc : Nat → Val → Raw
     (s : Bool) (hb : f.firstIsSelf = isInstanceMethodOf s true) (args : List Val) (kw : List (NameId × Val)) (body : BodyOut)
     (hc : f.clazzFails args = false) (hbinds : f.binds (fwdPosOf f args).length (kw.map (·.1)) = true) :
     (runCall env orc f args kw body).caller.allowed = true :=
-  wrapper_adds_nothing env orc horc f args kw body (by rw [hb, bound_is_not_instance_method]; rfl) hc hbinds
+  wrapper_adds_nothing env orc horc f args kw body (by simp [Fn.initFails, hb, bound_is_not_instance_method]) hc hbinds
 
 /-- a module-level function that really is decorated `@staticmethod @pedantic` (its qualified name has no dot).  The body-text
     variant of this witness - a comment mentioning `@staticmethod` - is repaired: see `header_flags_ignore_body` (C04). -/
@@ -126,7 +128,34 @@ theorem wrapper_escapes_moduleLevelStaticmethod :
 theorem WrapperAddsNothing_full_is_false : ¬ WrapperAddsNothing_full := by
   intro h
   have w := wrapper_escapes_moduleLevelStaticmethod
-  have := h envW (fun _ _ => .raisedOther) witnessStaticText [] [(1, .lit (.int 1))] (.ret (.lit (.int 1))) (by intro _ _; simp) rfl w.2.2
+  have := h envW (fun _ _ => .raisedOther) witnessStaticText [] [(1, .lit (.int 1))] (.ret (.lit (.int 1))) (by intro _ _; simp) w.2.2
   rw [w.1] at this; simp [Caller.allowed] at this
+
+/-! ### the receiver of a method passed by keyword (X2.4) -/
+/-- `@pedantic def m(self, a: int) -> int` in a class `K` -/
+def witnessMethod : Fn :=
+  { name := "m", flags := flagsOfSource "m" "    @pedantic\n    def m(self, a: int) -> int:\n        return a\n",
+    qualDotted := true, params := [{ name := 0, kind := .posOrKw, ann := none, dflt := none }, { name := 1, kind := .posOrKw, ann := some (.cls 2), dflt := none }],
+    selfName := 0, firstIsSelf := true, isBound := false, retAnn := some (.cls 2), genRet := .notGenType, flavour := .sync, mode := .pedantic }
+/-- **region `receiverByKeywordIndexError`**: `K.m(self=k, a=1)` - a keyword call that Python accepts for the undecorated method (`hbinds`
+    holds, `clazz` does not fail) - ends in IndexError out of `FunctionCall.__init__`, as long as the receiver is only looked for in `args` -/
+theorem wrapper_escapes_receiverByKeyword (h : receiverMayBeKeyword = false) :
+    (runCall envW (fun _ _ => .raisedOther) witnessMethod [] [(0, .inst 7), (1, .lit (.int 1))] (.ret (.lit (.int 1)))).caller = .escape "IndexError" ∧
+    witnessMethod.clazzFails ([] : List Val) = false ∧
+    witnessMethod.binds (fwdPosOf witnessMethod []).length [0, 1] = true := by
+  first
+    | exact absurd h (by decide)
+    | decide
+/-- … and since the repair `receiverMayBeKeyword` the hypothesis `hinit` of `wrapper_adds_nothing` is met by every call -/
+theorem wrapper_adds_nothing_any_receiver (hfix : receiverMayBeKeyword = true) (env : Env) (orc : Nat → Val → Raw) (horc : ∀ k v, orc k v ≠ .raisedTV)
+    (f : Fn) (args : List Val) (kw : List (NameId × Val)) (body : BodyOut) (hc : f.clazzFails args = false)
+    (hbinds : f.binds (fwdPosOf f args).length (kw.map (·.1)) = true) :
+    (runCall env orc f args kw body).caller.allowed = true :=
+  wrapper_adds_nothing env orc horc f args kw body (by simp [Fn.initFails, hfix]) hc hbinds
+theorem receiver_by_keyword_accepted (hfix : receiverMayBeKeyword = true) :
+    (runCall envW (fun _ _ => .raisedOther) witnessMethod [] [(0, .inst 7), (1, .lit (.int 1))] (.ret (.lit (.int 1)))).caller = .ret := by
+  first
+    | exact absurd hfix (by decide)
+    | decide
 
 end PedVerif.Call
